@@ -208,7 +208,7 @@ def run(tier, seed):
     for cfg in CFG8():
         blocks.append(("probe", cfg.engine == "async", tuple(cfg)))
     total, capped = run_blocks(worker, blocks, seed=seed)
-    rep.add_violations(total.violations)
+    rep.add_violations(total.violations, total.hist_sig)
     rep.harness_errors = total.stats.get("harness_errors", 0)
     rep.notes.extend(total.notes)
     rep.coverage = {
